@@ -539,10 +539,9 @@ var SignumFunc = function.New(&function.Spec{
 	Type:         function.StaticReturnType(cty.Number),
 	RefineResult: refineNonNull,
 	Impl: func(args []cty.Value, retType cty.Type) (ret cty.Value, err error) {
-		var num int
-		if err := gocty.FromCtyValue(args[0], &num); err != nil {
-			return cty.UnknownVal(cty.String), err
-		}
+		// The sign is taken from the number itself so that fractional,
+		// very large and infinite numbers are in the domain too.
+		num := args[0].AsBigFloat().Sign()
 		switch {
 		case num < 0:
 			return cty.NumberIntVal(-1), nil
